@@ -96,7 +96,7 @@ def memento_sexpr(m, deps=None, sort_deps=False):
         ("~" if im.resources is None else "( " + "".join("H %s %s %s " % (ostr(r.resource_type), ostr(r.url), ostr(r.version))
                                                           for r in im.resources) + ")") + " " + \
         hx(runtime_token(im.runtime)) + " " + hx(getattr(im.result_type, "name", "?" + repr(im.result_type))) + " ( " + "".join(d + " " for d in dl) + ") " + \
-        jval_sexpr(m.runner) + " " + ostr(m.correlation_id) + " " + ("~" if ck is None else "K %s %s" % (hx(ck.key), hx(ck.version)))
+        jval_sexpr(m.runner) + " " + ostr(m.correlation_id) + " " + ("~" if ck is None else "K %s %s" % (hx(ck.key) if ck.key is not None else "~none~", hx(ck.version) if ck.version is not None else "~none~"))
 
 
 def canon_text(doc):
@@ -876,7 +876,8 @@ def leaf_streams(chk, rng, proof_ok, quick, failed=None):
         for i, (k, v, wire, back) in enumerate(meta):
             if k is not None and outs[2 * i] != hx(wire):
                 chk.correspondence_break("versioned-key-encode", dict(key=k, version=v, real=wire, model=outs[2 * i]))
-            if outs[2 * i + 1] != hx(back.key) + " " + hx(back.version):
+            hxo = lambda t: "~none~" if t is None else hx(t)         # (a decoder that yields None for a part: shown, not a crash)
+            if outs[2 * i + 1] != hxo(back.key) + " " + hxo(back.version):
                 chk.correspondence_break("versioned-key-decode", dict(text=wire, real=[back.key, back.version], model=outs[2 * i + 1]))
     # datetime texts
     dts = []
